@@ -490,6 +490,12 @@ type vC06Gen struct {
 	// "villain" mode: Byzantine nodes answer their own request with the honest roots / a plausible signature but
 	// with ONE fixed defect, so that their vote would tip a threshold if the corresponding check were missing
 	villainA, villainB int // -1 = off
+	// "attack" mode (phase A): the observers of attackChain other than the attacker stay silent, everybody else is
+	// honest, and the attacker answers EVERY request id it holds with a correctly signed observation that carries all
+	// requested lanes it observes (whether or not they were asked under that id), with its own root on attackChain.
+	// With one request per node this is one vote; if a node ever holds two request ids it votes twice.
+	attack              bool
+	attacker, attackChain uint64
 }
 
 func (g *vC06Gen) goodObs(node uint64, s vC06Send) vC06Body {
@@ -705,6 +711,53 @@ func (g *vC06Gen) next(sends []vC06Send) (node uint64, body vC06Body, cls string
 		}
 		return g.corruptObs(b)
 	}
+	if g.attack && !phaseB {
+		observes := func(n, ch uint64) bool {
+			nd := g.c.node(n)
+			if nd == nil {
+				return false
+			}
+			for _, x := range nd.chains {
+				if x == ch {
+					return true
+				}
+			}
+			return false
+		}
+		for _, s := range open {
+			if s.node == g.attacker {
+				g.used[s.iid] = true
+				b := g.goodObs(s.node, vC06Send{rid: s.rid, iid: s.iid})
+				cl := "over-answer"
+				for _, rq := range g.c.reqs {
+					if !observes(s.node, rq.ch) {
+						continue
+					}
+					asked := false
+					for _, ch := range s.chains {
+						asked = asked || ch == rq.ch
+					}
+					if !asked {
+						cl = "over-answer:unasked-lane"
+					}
+					root := g.c.trueRoot[rq.ch]
+					if rq.ch == g.attackChain {
+						root = 250
+					}
+					b.lus = append(b.lus, vC06LU{src: true, ch: rq.ch, onr: rq.onr, itv: true, mn: rq.mn, mx: rq.mx,
+						rootKind: 2, root: root})
+				}
+				return s.node, b, cl
+			}
+		}
+		for _, s := range open {
+			if !observes(s.node, g.attackChain) {
+				g.used[s.iid] = true
+				return s.node, g.goodObs(s.node, s), "good"
+			}
+		}
+		return vPick(r, g.c.nodes).id, vC06Body{garbage: true}, "garbage"
+	}
 	if len(open) > 0 && r.Intn(100) < g.honest {
 		s := vPick(r, open)
 		g.used[s.iid] = true
@@ -858,6 +911,40 @@ func vC06Run(r *vRand, cfgCls string, maxItems int, watchdog time.Duration) (coq
 	cancelAt := -1
 	if r.Chance(1, 4) {
 		cancelAt = r.Intn(maxItems)
+	}
+	if cfgCls == "ok" && len(c.reqs) >= 2 && r.Chance(1, 5) {
+		// attack mode: the attacker is a node that observes at least two requested lanes
+		best, bestN := uint64(0), 0
+		for _, n := range c.nodes {
+			k := 0
+			for _, ch := range n.chains {
+				if c.req(ch) != nil {
+					k++
+				}
+			}
+			if k > bestN || k == bestN && k > 0 && r.Bool() {
+				best, bestN = n.id, k
+			}
+		}
+		if bestN >= 2 {
+			gen.attack, gen.attacker = true, best
+			bestF := int64(-1)
+			for _, p := range c.homeF {
+				for _, ch := range c.node(best).chains {
+					if uint64(p[0]) == ch && c.req(ch) != nil && p[1] > bestF {
+						bestF, gen.attackChain = p[1], ch
+					}
+				}
+			}
+			gen.villainA, gen.villainB, gen.honest, cancelAt = -1, -1, 97, -1
+			c.byzantine = map[uint64]bool{best: true}
+			// the silent observers never trigger Reset(0): let the initial request timer be the one that is due at once
+			c.dueA = true
+			ctl.observationsInitialRequestTimerDuration = time.Nanosecond
+			for i := range fails {
+				fails[i] = false
+			}
+		}
 	}
 	if r.Chance(1, 25) { // context already cancelled when the first select is entered
 		peer.cancelAtNext = true
